@@ -65,6 +65,16 @@ def handle : List String → String
       let spec := if decide (FirstIsFinal pat body) then resStr ⟨body, true, rest⟩ else "-"
       s!"{resStr r}\t{spec}\t{resStr asis}"
     | _, _, _, _ => "bad-op"
+  -- venva/vdoca/vdocpa <written name> <class name> <body> <rest> : `\begin{written}` under a `\let` alias of the class
+  | ["venva", wn, cn, bd, rs] | ["vdoca", wn, cn, bd, rs] | ["vdocpa", wn, cn, bd, rs] =>
+    match cps? wn, cps? cn, cps? bd, cps? rs with
+    | some written, some cls, some body, some rest =>
+      let pat := endPattern 92 123 125 written
+      let r := verbatimBegun 92 123 125 written cls (body ++ pat ++ rest)
+      let byClass := verbatimEnv true 92 123 125 cls (body ++ pat ++ rest)
+      let spec := if decide (FirstIsFinal pat body) then resStr ⟨body, true, rest⟩ else "-"
+      s!"{resStr r}\t{spec}\t{resStr byClass}"
+    | _, _, _, _ => "bad-op"
   -- venvraw <begun> <name> | <input> : arbitrary input after \begin{name} (model only)
   | ["venvraw", b, n, inp] =>
     match bool? b, cps? n, cps? inp with
